@@ -67,7 +67,7 @@ Proof.
   { intros nd e Hnd He. specialize (Hnodes nd Hnd). rewrite andb_true_iff in Hnodes.
     destruct Hnodes as [_ H]. rewrite forallb_forall in H. specialize (H e He).
     rewrite !andb_true_iff in H. tauto. }
-  destruct (annotate_good (case_matching c) (case_text c) start (case_nodes c)
+  destruct (annotate_good (case_matching c) false (case_text c) start (case_nodes c)
               (fun a d => is_anc G a d = true)
               (is_anc_refl G Hwf Hpc Hsm start Hst)
               (is_anc_trans G Hwf Hpc Hsm) Hedges
@@ -130,4 +130,44 @@ Proof.
       * right. apply existsb_exists in H. destruct H as [nd [Hnd H]].
         apply existsb_exists in H. destruct H as [e [He H]]. apply andb_true_iff in H.
         destruct H as [Hm Hf]. apply Nat.eqb_eq in Hf. exists nd, e. auto.
+Qed.
+
+(* ------------------------------------------------------------------ the strict clause *)
+
+From Verif Require Import Proofs.C38Strict.
+
+Lemma closedb_spec : forall l, closedb l = true ->
+  forall pre nd post, l = pre ++ nd :: post ->
+  forall e, In e (snd nd) -> is_missing e = false -> In (fst e) (map fst post).
+Proof.
+  induction l as [|x t IH]; intros H pre nd post Hl e He Hm.
+  - destruct pre; discriminate.
+  - cbn [closedb] in H. apply andb_true_iff in H. destruct H as [H1 H2].
+    destruct pre as [|y pre]; cbn in Hl; inversion Hl; subst.
+    + rewrite forallb_forall in H1. specialize (H1 e He). rewrite Hm in H1. cbn in H1.
+      apply existsb_exists in H1. destruct H1 as [nd' [Hin Heq]]. apply Nat.eqb_eq in Heq.
+      rewrite <- Heq. now apply in_map.
+    + eapply IH; eauto.
+Qed.
+
+(** For every case whose inputs and stream are valid, the model (after the repair) leaves
+    unresolved only lines that ended in a commit outside the searched range. *)
+Theorem model_strict_ok (c : case) : stream_okb c = true ->
+  strict_ok c (model_origins c) = true.
+Proof.
+  intros Hs. unfold stream_okb in Hs. rewrite !andb_true_iff in Hs.
+  destruct Hs as [[[_ Hmt] Hcl] Hst].
+  unfold strict_ok. apply forallb_forall. intros o Ho.
+  apply In_nth_error in Ho. destruct Ho as [s Ho].
+  assert (Hstart : In (N.to_nat (c_start c)) (map fst (case_nodes c))).
+  { apply existsb_exists in Hst. destruct Hst as [nd [Hnd Heq]]. apply Nat.eqb_eq in Heq.
+    rewrite <- Heq. now apply in_map. }
+  assert (Hmt' : forall nd, In nd (case_nodes c) -> is_mt (case_nodes c) (fst nd) = false).
+  { intros nd Hnd. rewrite forallb_forall in Hmt. specialize (Hmt nd Hnd).
+    apply negb_true_iff in Hmt. exact Hmt. }
+  destruct (annotate_strict (case_matching c) (case_nodes c) (N.to_nat (c_start c)) Hmt'
+              (closedb_spec _ Hcl) (length (case_text c (N.to_nat (c_start c)))) Hstart s o Ho)
+    as [Hok|Hm].
+  - now rewrite Hok.
+  - apply orb_true_iff. right. exact Hm.
 Qed.
